@@ -690,12 +690,10 @@ Proof.
   - apply N.eqb_neq in E. rewrite IH. tauto.
 Qed.
 
-(* unless the mutation is a room move that the code ignores (class 2), reading and writing with
-   nothing in between is the abstract semantics of the mutation *)
-Lemma apply1_spec : forall m d, wfP d -> fresh_create d m -> ignored_move d m = false ->
-  apply1 m d = spec_apply m d.
+(* reading and writing with nothing in between is the abstract semantics of the request *)
+Lemma apply1_spec : forall m d, wfP d -> fresh_create d m -> apply1 m d = spec_apply m d.
 Proof.
-  intros m d [Hids Hrids] Hfresh Hig. unfold apply1, read, spec_apply, ignored_move in *.
+  intros m d [Hids Hrids] Hfresh. unfold apply1, read, spec_apply in *.
   destruct (m_kind m) eqn:K.
   - (* update *)
     destruct (find_row (m_row m) d) as [old|] eqn:F; [|reflexivity].
@@ -707,14 +705,13 @@ Proof.
     { f_equal. rewrite existsb_map'. apply existsb_ext'. intros op _. apply ref_read_effective. }
     unfold write, read_update; cbn [p_kind p_node p_del p_ins rows edges]. rewrite Hupd.
     f_equal.
-    + destruct (negb (is_nil (m_assign m)) || existsb (spec_ref_effective es) (m_refs m)) eqn:U; cbn [orb].
-      * cbn [r_rowid]. apply map_ext_in. intros r Hr.
-        assert (E : N.eqb (r_rowid r) (r_rowid old) = N.eqb (r_id r) (m_row m)).
-        { apply Bool.eq_iff_eq_true. rewrite !N.eqb_eq. split; intros H.
-          - assert (r = old) by (eapply (unique_by r_rowid); eauto). subst r. assumption.
-          - assert (r = old) by (eapply (unique_by r_id); eauto; congruence). subst r. reflexivity. }
-        rewrite E. reflexivity.
-      * cbn [negb] in Hig. rewrite Bool.andb_true_r in Hig. rewrite Hig. reflexivity.
+    + destruct (negb (is_nil (m_assign m)) || existsb (spec_ref_effective es) (m_refs m) || room_changes old m) eqn:U; [|reflexivity].
+      cbn [r_rowid]. apply map_ext_in. intros r Hr.
+      assert (E : N.eqb (r_rowid r) (r_rowid old) = N.eqb (r_id r) (m_row m)).
+      { apply Bool.eq_iff_eq_true. rewrite !N.eqb_eq. split; intros H.
+        - assert (r = old) by (eapply (unique_by r_rowid); eauto). subst r. assumption.
+        - assert (r = old) by (eapply (unique_by r_id); eauto; congruence). subst r. reflexivity. }
+      rewrite E. reflexivity.
     + apply (edges_spec m d).
   - (* creation *)
     rewrite (Hfresh K). unfold write, read_create; cbn [p_kind p_node p_del p_ins rows edges r_id r_room r_mdate r_fields].
@@ -751,23 +748,17 @@ Proof.
 Qed.
 
 Lemma fold_spec_apply : forall ms pi d, wfP d ->
-  moves_ok ms d pi = true -> creates_fresh ms d pi = true ->
+  creates_fresh ms d pi = true ->
   fold_left (spec_apply_i ms) pi d = fold_left (apply ms) pi d.
 Proof.
-  induction pi as [|i t IH]; intros d Hwf H Hc; [reflexivity|]. cbn [moves_ok creates_fresh] in H, Hc.
-  apply Bool.andb_true_iff in H. destruct H as [H1 H2].
+  induction pi as [|i t IH]; intros d Hwf Hc; [reflexivity|]. cbn [creates_fresh] in Hc.
   apply Bool.andb_true_iff in Hc. destruct Hc as [C1 C2]. cbn [fold_left].
   assert (E : spec_apply_i ms d i = apply ms d i /\ wfP (apply ms d i)).
   { unfold spec_apply_i. rewrite apply_apply1. destruct (nth_error ms i) as [m|]; [|split; [reflexivity | assumption]].
     assert (Hf : fresh_create d m).
     { intros K. rewrite K in C1. destruct (find_row (m_row m) d); [discriminate | reflexivity]. }
-    split; [symmetry; apply apply1_spec; auto; apply Bool.negb_true_iff, H1 | apply wf_apply1; assumption]. }
+    split; [symmetry; apply apply1_spec; auto | apply wf_apply1; assumption]. }
   destruct E as [E Hwf']. rewrite E. apply IH; assumption.
-Qed.
-Lemma moves_ok_app : forall ms a b d, moves_ok ms d (a ++ b) = true -> moves_ok ms d a = true.
-Proof.
-  induction a as [|i t IH]; intros b d H; [reflexivity|]. cbn [app moves_ok] in *.
-  apply Bool.andb_true_iff in H. destruct H as [H1 H2]. rewrite H1. cbn [andb]. eapply IH, H2.
 Qed.
 Lemma creates_fresh_app : forall ms a b d, creates_fresh ms d (a ++ b) = true -> creates_fresh ms d a = true.
 Proof.
@@ -802,8 +793,8 @@ Proof.
   destruct (memn i (s_acked s)); [reflexivity|]. destruct (memn i (s_refused s)); reflexivity.
 Qed.
 
-(* outside the known classes: a schedule (complete or not) without overlapping windows on one
-   row, in a case where no order ignores a room move, reaches the state that the acknowledged
+(* outside the known class: a schedule (complete or not) without overlapping windows on one
+   row reaches the state that the acknowledged
    mutations give under the abstract semantics, applied in write order; stated on the functions
    the harness evaluates *)
 Theorem outside_known : forall rt d nf ms sigma b,
@@ -813,10 +804,8 @@ Theorem outside_known : forall rt d nf ms sigma b,
   spec_C16 (CSched rt d nf ms sigma b) (run_C16 (CSched rt d nf ms sigma b)) = true.
 Proof.
   intros rt d nf ms sigma b Hk Hwf Hr.
-  cbn [known_C16] in Hk. apply app_eq_nil in Hk. destruct Hk as [Hk1 Hk2].
-  destruct (windows_ok ms [] sigma) eqn:Hw; [|discriminate]. clear Hk1.
-  destruct (forallb (moves_ok ms d) (perms (seq 0 (length ms)))) eqn:Hm; [|discriminate]. clear Hk2.
-  rewrite forallb_forall in Hm.
+  cbn [known_C16] in Hk.
+  destruct (windows_ok ms [] sigma) eqn:Hw; [|discriminate]. clear Hk.
   cbn [wf_case] in Hwf. apply Bool.andb_true_iff in Hwf. destruct Hwf as [Hwd Hcf].
   apply wf_db_wfP in Hwd. rewrite forallb_forall in Hcf.
   destruct (run_sched rt d ms sigma) as [s|] eqn:Hrun; [|congruence]. clear Hr.
@@ -851,10 +840,9 @@ Proof.
       + intros Hi. destruct (memn i (s_acked s)) eqn:M; [left; apply memn_In, M | right; split; [lia | apply memn_false, M]].
       + intros [Hi|[Hi _]]; [specialize (Hlt i Hi); lia | lia]. }
   assert (Hall : In (s_acked s ++ rest) (perms (seq 0 n))) by (apply perms_complete, HPall).
-  assert (Hmo : moves_ok ms d (s_acked s) = true) by (eapply moves_ok_app, Hm, Hall).
   assert (Hfo : creates_fresh ms d (s_acked s) = true) by (eapply creates_fresh_app, Hcf, Hall).
   apply existsb_exists. exists (s_acked s). split; [apply perms_complete, HP|].
-  rewrite (fold_spec_apply ms (s_acked s) d Hwd Hmo Hfo), <- Hdb. apply zlist_eqb_refl.
+  rewrite (fold_spec_apply ms (s_acked s) d Hwd Hfo), <- Hdb. apply zlist_eqb_refl.
 Qed.
 
 (* ------------------------------------------------------------------ refutation witnesses (closed terms) *)
@@ -996,33 +984,30 @@ Lemma other_rows_frame : forall d m mo p,
   NoDup (rowids d) -> read d mo = Some p -> m_row mo <> m_row m -> read (write p d) m = read d m.
 Proof. intros d m mo p Hn Hr Hne. eapply read_write_frame; eauto. Qed.
 
-(* class 2, closed witness: a strictly sequential schedule; the first mutation only names room 2 *)
+(* former class 2 (fixed by 07628ab), now a PASSING witness: a strictly sequential schedule whose
+   first mutation only names room 2: the row moves, the case lies in no known class and the
+   oracle accepts it *)
 Definition wit_room_only : list mutation := [mut (Some 2%N) 1000 [] []; mut None 2000 [(1%N, 22)] []].
 Definition seq_sigma : list ev := [R 0; V 0; W 0; R 1; V 1; W 1]%nat.
-Lemma refuted_room_only :
+Lemma room_only_moves :
   let c := CSched wit_rt wit_db 4%N wit_room_only seq_sigma false in
-  known_C16 c = [2] /\ wf_case c = true /\ windows_ok wit_room_only [] seq_sigma = true /\
-  (exists s, run_sched wit_rt wit_db wit_room_only seq_sigma = Some s /\ s_acked s = [0; 1]%nat /\
-     (exists r, find_row 1%N (s_db s) = Some r /\ r_room r = Some 1%N) /\
-     (forall pi, Permutation [0; 1]%nat pi ->
-                 exists r, find_row 1%N (fold_left (spec_apply_i wit_room_only) pi wit_db) = Some r /\ r_room r = Some 2%N)) /\
-  spec_C16 c (run_C16 c) = false.
+  known_C16 c = [] /\ wf_case c = true /\
+  (exists s, run_sched wit_rt wit_db wit_room_only [R 0; V 0; W 0]%nat = Some s /\ s_acked s = [0]%nat /\
+     exists r, find_row 1%N (s_db s) = Some r /\ r_room r = Some 2%N /\ r_mdate r = 1000) /\
+  spec_C16 c (run_C16 c) = true.
 Proof.
-  cbv zeta. split; [vm_compute; reflexivity|]. split; [vm_compute; reflexivity|]. split; [vm_compute; reflexivity|].
-  split; [|vm_compute; reflexivity].
-  eexists. split; [vm_compute; reflexivity|]. split; [reflexivity|]. split.
-  - eexists. split; [vm_compute; reflexivity|]. reflexivity.
-  - intros pi HP. apply perms_complete in HP. cbn in HP.
-    destruct HP as [<-|[<-|[]]]; eexists; (split; [vm_compute; reflexivity | reflexivity]).
+  cbv zeta. split; [vm_compute; reflexivity|]. split; [vm_compute; reflexivity|]. split; [|vm_compute; reflexivity].
+  eexists. split; [vm_compute; reflexivity|]. split; [reflexivity|].
+  eexists. split; [vm_compute; reflexivity|]. split; reflexivity.
 Qed.
 
 (* the serial theorem, against the abstract semantics *)
 Lemma serial_spec : forall rt d ms sigma s,
   wf_db d = true ->
   run_sched rt d ms sigma = Some s -> windows_ok ms [] sigma = true ->
-  moves_ok ms d (s_acked s) = true -> creates_fresh ms d (s_acked s) = true ->
+  creates_fresh ms d (s_acked s) = true ->
   s_db s = fold_left (spec_apply_i ms) (s_acked s) d.
 Proof.
-  intros rt d ms sigma s Hwf Hr Hw Hm Hc. apply wf_db_wfP in Hwf.
-  rewrite (fold_spec_apply ms (s_acked s) d Hwf Hm Hc). eapply serial_ok; eauto. apply Hwf.
+  intros rt d ms sigma s Hwf Hr Hw Hc. apply wf_db_wfP in Hwf.
+  rewrite (fold_spec_apply ms (s_acked s) d Hwf Hc). eapply serial_ok; eauto. apply Hwf.
 Qed.
